@@ -176,6 +176,13 @@ func (w *World) buildUnstake(v *View, cp CurParams) (*TxSpec, string) {
 func (w *World) buildUnjail(v *View, cp CurParams) (*TxSpec, string) {
 	vals := sortedVals(v)
 	var a *Actor
+	// a jailed validator whose signing info says tombstoned although its jailed-until time has passed (a state that a
+	// genesis file can carry) is the most interesting sender
+	for _, c := range vals {
+		if si := v.Sign[c.Addr]; c.Jailed && si != nil && si.Tombstoned && !si.JailedUntil.After(w.Now) && w.ByAddr[c.Addr] != nil && w.R.Chance(60) {
+			return w.honest(w.ByAddr[c.Addr], posTypes.MsgUnjail{ValidatorAddr: w.ByAddr[c.Addr].Addr}, cp), "unjail-tombstoned-after-expiry"
+		}
+	}
 	for i := 0; i < 8 && len(vals) > 0; i++ {
 		c := vals[w.R.Intn(len(vals))]
 		a = w.ByAddr[c.Addr]
